@@ -1,9 +1,11 @@
 package loadeng
 
 import (
+	"errors"
 	"fmt"
 	"os"
 	"path/filepath"
+	"sort"
 	"strings"
 	"testing"
 
@@ -33,6 +35,9 @@ type ExpCase struct {
 	EnvVal  []Piece           `json:"envval"`
 	Probe   []Piece           `json:"probe"`
 	GEnvVal []Piece           `json:"genvval"`
+	// map keys of the file: the name of a second process (also a depends_on key of p) and a vars key
+	ProcKey []Piece `json:"prockey,omitempty"`
+	VarKey  []Piece `json:"varkey,omitempty"`
 }
 
 func raw(ps []Piece) string {
@@ -105,8 +110,14 @@ func checkExp(c ExpCase) pbt.Verdict {
 		y.WriteString("disable_env_expansion: true\n")
 	}
 	fmt.Fprintf(&y, "environment:\n  - 'G=%s'\n", raw(c.GEnvVal))
+	if len(c.VarKey) > 0 {
+		fmt.Fprintf(&y, "vars:\n  '%s': vv\n", raw(c.VarKey))
+	}
 	fmt.Fprintf(&y, "processes:\n  p:\n    command: '%s'\n    working_dir: '%s'\n    environment:\n      - 'K=%s'\n    readiness_probe:\n      exec:\n        command: '%s'\n",
 		raw(c.Command), raw(c.WorkDir), raw(c.EnvVal), raw(c.Probe))
+	if len(c.ProcKey) > 0 {
+		fmt.Fprintf(&y, "    depends_on:\n      '%s':\n        condition: process_started\n  '%s':\n    command: 'second'\n", raw(c.ProcKey), raw(c.ProcKey))
+	}
 	f := filepath.Join(d, "pc.yaml")
 	_ = os.WriteFile(f, []byte(y.String()), 0o644)
 	lo := &loader.LoaderOptions{FileNames: []string{f}, EnvFileNames: []string{dot}, IsInternalLoader: true}
@@ -148,6 +159,31 @@ func checkExp(c ExpCase) pbt.Verdict {
 		{"probe command", probe, c.Probe}, {"global environment value", genv, c.GEnvVal}} {
 		if want := expand(x.ps, eff, c.Disable); x.got != want {
 			v.Violations = append(v.Violations, fmt.Sprintf("%s: file text %q loaded as %q, want %q (env %v, dotenv %v, no_dotenv=%v, expansion disabled=%v)", x.what, raw(x.ps), x.got, want, c.Env, c.DotEnv, c.NoDot, c.Disable))
+			return v
+		}
+	}
+	// map keys are part of "the configuration" too: exactly the expanded key exists, once
+	if len(c.ProcKey) > 0 {
+		want := expand(c.ProcKey, eff, c.Disable)
+		var have []string
+		for k := range prj.Processes {
+			have = append(have, k)
+		}
+		sort.Strings(have)
+		if _, ok := prj.Processes[want]; !ok || len(prj.Processes) != 2 {
+			v.Violations = append(v.Violations, fmt.Sprintf("process key %q: loaded processes %q, want exactly p and %q (env %v, dotenv %v, no_dotenv=%v, expansion disabled=%v)", raw(c.ProcKey), have, want, c.Env, c.DotEnv, c.NoDot, c.Disable))
+			return v
+		}
+		if _, ok := p.DependsOn[want]; !ok || len(p.DependsOn) != 1 {
+			v.Violations = append(v.Violations, fmt.Sprintf("depends_on key %q: loaded as %v, want exactly %q", raw(c.ProcKey), p.DependsOn, want))
+			return v
+		}
+		v.Labels = append(v.Labels, "dollar-in-key")
+	}
+	if len(c.VarKey) > 0 {
+		want := expand(c.VarKey, eff, c.Disable)
+		if _, ok := prj.Vars[want]; !ok || len(prj.Vars) != 1 {
+			v.Violations = append(v.Violations, fmt.Sprintf("vars key %q: loaded vars %v, want exactly the key %q", raw(c.VarKey), prj.Vars, want))
 			return v
 		}
 	}
@@ -212,6 +248,12 @@ func genExp(t *rapid.T) ExpCase {
 	c.EnvVal = genPieces(t)
 	c.Probe = append([]Piece{{"lit", "chk "}}, genPieces(t)...)
 	c.GEnvVal = genPieces(t)
+	if pbt.Pct(t, 50) {
+		c.ProcKey = append([]Piece{{"lit", "q"}}, genPieces(t)...)
+	}
+	if pbt.Pct(t, 30) {
+		c.VarKey = append([]Piece{{"lit", "V"}}, genPieces(t)...)
+	}
 	return c
 }
 
@@ -268,6 +310,10 @@ func checkLaunch(c LaunchCase) pbt.Verdict {
 	}
 	s := &sc.Scenario{Procs: c.Procs, Top: top.String(), FinishRounds: 10}
 	e, err := sc.Begin(s)
+	if errors.Is(err, sc.ErrLeftover) {
+		v.Skip = true
+		return v
+	}
 	if err != nil {
 		v.Violations = append(v.Violations, "load failed: "+err.Error()+"\n"+sc.YAML(c.Procs, false, 0, top.String()))
 		return v
